@@ -1,2 +1,4 @@
 import FeemsModel.Model.Basic
+import FeemsModel.Model.KeyedList
 import FeemsModel.Model.Fuel
+import FeemsModel.Model.Result
